@@ -366,7 +366,8 @@ Exec(q, cq, table, sch) ==
 HasOOD(rows) == \E i \in 1..Len(rows) : \E j \in 1..Len(rows[i]) : rows[i][j].t = "ood"
 AnyWhereOOD(q, table, sch) == \E i \in 1..Len(table) : WhereOOD(q, table[i], sch)
 \* a statement is outside the model's domain when any evaluated cell (visible or hidden: sort keys, HAVING) is
-ExecOOD(q, cq, table, sch) == AnyWhereOOD(q, table, sch) \/ HasOOD(FullRows(q, cq, table, sch))
+TableOOD(table) == \E i \in 1..Len(table) : \E c \in DOMAIN table[i] : table[i][c].t = "str" /\ ~StrOK(table[i][c].s)
+ExecOOD(q, cq, table, sch) == TableOOD(table) \/ AnyWhereOOD(q, table, sch) \/ HasOOD(FullRows(q, cq, table, sch))
 
 -----------------------------------------------------------------------------
 (* Declarative statements (C01 C02 C03 C15) about the result, checked against the mechanism by TLC *)
